@@ -161,6 +161,14 @@ def datatype_contracts(tier, seed):
                 check(f'{tag}:abs:homogeneous', abs(abs(-2.0 * a) - 2.0 * na) <= 1e-12 * max(1, na))
                 check(f'{tag}:abs:triangle', abs(a + b) <= na + nb + 1e-12)
                 check(f'{tag}:abs:definite', abs(a * 0) == 0.0 and (na > 0) == bool(np.any(a0 != 0)))
+                # ... wherever the entry of largest modulus sits and whatever its sign / phase is (not the extreme real part, not the last entry)
+                for pos in sorted({0, a.size // 2, a.size - 1}):
+                    for big in ((-7.5,) if dt.kind != 'c' else (-7.5, 1 + 5j, -0.5 - 6j, 6j)):
+                        p_ = cls(a)
+                        flat = np.asarray(p_).reshape(-1)
+                        flat[...] = [(-1) ** k * (2 + k % 3) for k in range(flat.size)]
+                        flat[pos] = big
+                        check(f'{tag}:abs:is_max_modulus_wherever_it_sits[pos={pos},value={big}]', abs(abs(p_) - abs(big)) <= 1e-14 * abs(big), float(abs(p_)))
                 # component views of multi-component meshes
                 if cls is not mesh:
                     for i, comp in enumerate(cls.components):
